@@ -209,9 +209,13 @@ def run(prop, tier):
             for dr in dec["drift"]:
                 rep.drift("%s: %s" % (dr["rule"], "unused or unaccounted bytes between blocks" if dr["rule"] == "tiling-gap" else dr["rule"]))
             events.extend(evs)
-        dd = decoder_dump(d, scn)
+        try:
+            dd, why = decoder_dump(d, scn), "none"
+        except (IndexError, KeyError, ValueError, TypeError, AssertionError, jbkdec.struct.error) as e:
+            # what the creator wrote leads the independent decoder outside the file's own tables: the layout is not followed
+            dd, why = None, "decoder stopped: %s %s" % (type(e).__name__, str(e)[:80])
         exp = L.expected_dump(scn)
-        df = L.diff(exp, dd) if dd is not None else [("decoder", "dump", "none")]
+        df = L.diff(exp, dd) if dd is not None else [("decoder", "dump", why)]
         df = [x for x in df if x[0] != "check"]
         events.append({"ev": "Logical", "scn": sid, "who": "decoder", "diffs": len(df), "first": [list(map(str, x)) for x in df[:3]]})
         if reader_dump is not None:
